@@ -85,6 +85,21 @@ def mux_cases(tier):
     return out
 
 
+LONG = "battery_management_cell_group_index"  # 35 characters: DBC symbols are limited to 32
+
+
+def muxnames_cases(tier):
+    """Multiplexing where the selector is not a short top-level name: inside a nested struct (the signal block can
+    only give the bare field name), longer than a DBC symbol, or both; the selector before or after the muxed leaf."""
+    out = []
+    for sel_name, muxed_name in (("sid", "temp"), (LONG, "voltage"), ("sid", LONG + "_raw"), (LONG, LONG + "_value")):
+        for nested in (False, True):
+            for sel_first in (True, False):
+                for count in (1, 4):
+                    out.append(("muxnames", {"sel": sel_name, "muxed": muxed_name, "nested": nested, "sel_first": sel_first, "count": count}))
+    return out
+
+
 def unit_cases(tier):
     out = []
     inner = ("st", (("p", 0, U(8), "degC", None), ("q", 1, I(8), None, None)))
@@ -130,6 +145,22 @@ def build_case(kind, spec, idx, h):
             name = ("R%d_%d" % (idx, k)) if spec["rename"] else None
             decls.append(("impl", "can", sname, name, tuple(fields), ()))
             bindings.append({"struct": sname, "name": name or sname, "id": spec["ids"][k], "bus": spec["buses"][k] or "default", "big": set(), "mux": None})
+        return decls, bindings
+    if kind == "muxnames":
+        sname = "S%d" % idx
+        pair = [(spec["sel"], U(8)), (spec["muxed"], I(16))]
+        if not spec["sel_first"]:
+            pair.reverse()
+        inner = tuple((n, i, t, None, None) for i, (n, t) in enumerate(pair))
+        if spec["nested"]:
+            decls.append(("struct", "N%d" % idx, inner))
+            decls.append(("struct", sname, (("counter", 0, U(8), None, None), ("inner", 1, ("ref", "N%d" % idx), None, None))))
+            pre = "inner::"
+        else:
+            decls.append(("struct", sname, inner + (("counter", 2, U(8), None, None),)))
+            pre = ""
+        decls.append(("impl", "can", sname, None, (("id", idx % 2048),), ((spec["muxed"], (("mux_signal", spec["sel"]), ("mux_count", spec["count"]))),)))
+        bindings.append({"struct": sname, "name": sname, "id": idx % 2048, "bus": "default", "big": set(), "mux": {"leaf": pre + spec["sel"], "on_leaves": [pre + spec["muxed"]], "count": spec["count"]}})
         return decls, bindings
     if kind == "twobind":
         sname = "S%d" % idx
@@ -215,6 +246,8 @@ def value_rows(leaves, env, limit=48):
 def feature_class(kind, spec):
     if kind in ("buses", "twobind"):
         return kind
+    if kind == "muxnames":
+        return "muxnames:%s%s" % ("nested" if spec["nested"] else "flat", ",long" if len(spec["sel"]) > 32 or len(spec["muxed"]) > 32 else "")
     f = []
     for t in spec["fields"]:
         f.append(class_skeleton(t))
@@ -282,6 +315,8 @@ def make_worker(tier):
                         errs.append("signal names %s != %s" % (sorted(msg["signals"]), sorted(l.name.replace("::", "_") for l in leaves)))
                     else:
                         mux = b["mux"]
+                        if mux and "leaf" not in mux:
+                            mux = b["mux"] = dict(mux, leaf="f%d" % mux["signal"], on_leaves=["f%d" % i for i in mux["on"]])
                         units = unit_map(decls, b["struct"])
                         for l in leaves:
                             s = msg["signals"][l.name.replace("::", "_")]
@@ -300,13 +335,13 @@ def make_worker(tier):
                             if s["scale"] != 1 or s["offset"] != 0:
                                 errs.append("%s: scale/offset (%r,%r)" % (s["name"], s["scale"], s["offset"]))
                             if mux:
-                                is_muxer = l.name == "f%d" % mux["signal"]
-                                is_muxed = l.name in ["f%d" % i for i in mux["on"]]
+                                is_muxer = l.name == mux["leaf"]
+                                is_muxed = l.name in mux["on_leaves"]
                                 if is_muxer != (s["mux"] == "M"):
                                     errs.append("%s: multiplexer flag %r" % (s["name"], s["mux"]))
                                 if is_muxed:
                                     ids = mux_ids(s)
-                                    if ids != set(range(mux["count"])) or (s["mul_val"] and s["mul_val"][0] != "f%d" % mux["signal"]):
+                                    if ids != set(range(mux["count"])) or (s["mul_val"] and s["mul_val"][0] != mux["leaf"].replace("::", "_")):
                                         errs.append("%s: multiplexed ids %s != 0..%d" % (s["name"], sorted(ids), mux["count"] - 1))
                                 elif not is_muxer and s["mux"]:
                                     errs.append("%s: unexpected mux indicator %r" % (s["name"], s["mux"]))
@@ -323,7 +358,7 @@ def make_worker(tier):
                     rows = value_rows(leaves, env)
                     for row in rows:
                         if b["mux"]:
-                            sel = row[[x.name for x in leaves].index("f%d" % b["mux"]["signal"])]
+                            sel = row[[x.name for x in leaves].index(b["mux"]["leaf"])]
                             if sel >= b["mux"]["count"]:
                                 continue  # no multiplexed group is defined for this selector value
                         S.count("executions")
@@ -336,8 +371,8 @@ def make_worker(tier):
                         want = {}
                         for l, v in zip(leaves, row):
                             n = l.name.replace("::", "_")
-                            if b["mux"] and l.name in ["f%d" % i for i in b["mux"]["on"]]:
-                                sel = row[[x.name for x in leaves].index("f%d" % b["mux"]["signal"])]
+                            if b["mux"] and l.name in b["mux"]["on_leaves"]:
+                                sel = row[[x.name for x in leaves].index(b["mux"]["leaf"])]
                                 if sel >= b["mux"]["count"]:
                                     continue
                             want[n] = v
@@ -399,7 +434,7 @@ def unit_map(decls, sname):
 def run(tier):
     common.bind_repo()
     r = Run("C05", tier)
-    cases = layout_cases(tier) + endian_cases(tier) + mux_cases(tier) + unit_cases(tier) + bus_cases(tier) + twobind_cases(tier)
+    cases = layout_cases(tier) + endian_cases(tier) + mux_cases(tier) + unit_cases(tier) + bus_cases(tier) + twobind_cases(tier) + muxnames_cases(tier)
     counts = {}
     for k, _ in cases:
         counts[k] = counts.get(k, 0) + 1
@@ -408,7 +443,7 @@ def run(tier):
         r.stats.merge(s)
     r.rule = (
         "states = CAN schemas: every 1..3-field fixed-size message <= 64 bits over {u/i widths, f32, f64, enums (both edges of a width), nested structs, arrays of scalars/structs}; every subset of byte-aligned "
-        "fields marked big-endian; mux on every subset of the payload fields with counts 1,2,4; units at every nesting level; 1..3 bindings over buses {default,b1,b2}, renamed or not, ids {0,1,100,2047}. "
+        "fields marked big-endian; mux on every subset of the payload fields with counts 1,2,4; mux with the selector inside a nested struct and/or names beyond the 32-character DBC symbol limit; units at every nesting level; 1..3 bindings over buses {default,b1,b2}, renamed or not, ids {0,1,100,2047}. "
         "Each is generated by the real fcp_dbc generator; oracle (1) own DBC reader vs reference layout (id, name, length, per-leaf start/width/sign/float/byte order/unit/mux) + geometry; "
         "(2) cantools decodes every reference-packed boundary frame to the original values. non-trivial = messages with >= 2 leaves."
     )
